@@ -1,8 +1,8 @@
-(* C15 — released space is reused: repeating a net-zero cycle does not grow the file.  Statements are printed by Check below and compared with C15.expected; proofs in proofs/ReuseProofs.v.  PARTIAL: the allocation-level theorems (reuse before growth, LIFO reuse of a freed chain, no MiniFAT / mini-stream chain extension while retained capacity suffices) are proved; Also proved (proofs/NetZero.v): THE PROPERTY FOR NAMESPACE CYCLES - creation takes a free directory slot when there is one and otherwise grows the file by one directory sector, removal frees exactly one slot and never changes the size; hence for EVERY balanced cycle of create_storage / create_new_stream / remove_storage / remove_stream (any interleaving) on a state reached by a namespace history, repetitions 2 and 3 have the same size as repetition 1 (file length, sector count, table length), and for net-zero cycles (the same paths created and removed) the table represents the same abstract tree after every repetition - so 'returns to the same logical state' is a conclusion, not a hypothesis.  NOT proved: cycles that write stream data (checked by enumeration on the real crate: prefix with holes + cycle in any removal order, up to 80 repetitions while the mini stream keeps growing, one case in four reopening the bytes after every repetition). *)
+(* C15 — released space is reused: repeating a net-zero cycle does not grow the file.  Statements are printed by Check below and compared with C15.expected; proofs in proofs/ReuseProofs.v.  PARTIAL: the allocation-level theorems (reuse before growth, LIFO reuse of a freed chain, no MiniFAT / mini-stream chain extension while retained capacity suffices) are proved; Also proved (proofs/NetZero.v): THE PROPERTY FOR NAMESPACE CYCLES - creation takes a free directory slot when there is one and otherwise grows the file by one directory sector, removal frees exactly one slot and never changes the size; hence for EVERY balanced cycle of create_storage / create_new_stream / remove_storage / remove_stream (any interleaving) on a state reached by a namespace history, repetitions 2 and 3 have the same size as repetition 1 (file length, sector count, table length), and for net-zero cycles (the same paths created and removed) the table represents the same abstract tree after every repetition - so 'returns to the same logical state' is a conclusion, not a hypothesis.  Also proved (proofs/DataCycle.v): THE PROPERTY FOR DATA CYCLES - grow / truncate cycles of large and of small streams at store level and through handles, overwrite cycles (create_stream on an existing path), grow / cut-back cycles, and create / grow / remove cycles: from the second repetition on the sector count is unchanged for EVERY number of repetitions, the released sectors (or mini-sector capacity) are exactly what the next repetition takes, other streams keep their content.  NOT proved: cycles through OHWrite + flush, nested paths in create / remove cycles, arbitrary interleavings of several data cycles (checked by enumeration on the real crate: prefix with holes + cycle in any removal order, up to 80 repetitions while the mini stream keeps growing, one case in four reopening the bytes after every repetition). *)
 From Cfb.model Require Import Base Names DirEnt State Alloc Dir Mini Store Handle Open Cfb.
 From Cfb.gen Require Import Consts.
 From Cfb.spec Require Import Tree.
-From Cfb.proofs Require Import ReuseProofs ReadonlyTotal PersistProofs HistoryRefine NetZero Progress.
+From Cfb.proofs Require Import ReuseProofs ReadonlyTotal PersistProofs HistoryRefine NetZero Progress DataCycle.
 Set Printing Width 110.
 
 (* with a free sector available, allocation takes it and the file does not grow *)
@@ -94,6 +94,90 @@ Theorem C15_the_same_after_any_history_unconditionally : ltac:(let t := type of 
 Proof. exact netzero_after_history_total. Qed.
 Check C15_the_same_after_any_history_unconditionally.
 Print Assumptions C15_the_same_after_any_history_unconditionally.
+
+(* DataCycle: grow an empty stream to n >= 4096 bytes and truncate it to 0: whatever the FIRST repetition did (reuse, append or mixed), every later repetition succeeds, takes exactly the released sectors from the free stack and returns them: nsect is unchanged for all j, every other stream keeps its content, every state reopens *)
+Theorem C15_large_data_cycles_are_stable : ltac:(let t := type of big_cycle_stable in exact t).
+Proof. exact big_cycle_stable. Qed.
+Check C15_large_data_cycles_are_stable.
+Print Assumptions C15_large_data_cycles_are_stable.
+
+(* with enough free sectors not even the first repetition grows the file *)
+Theorem C15_large_data_cycles_never_grow_when_free_space_suffices : ltac:(let t := type of big_cycle_stable_reuse in exact t).
+Proof. exact big_cycle_stable_reuse. Qed.
+Check C15_large_data_cycles_never_grow_when_free_space_suffices.
+Print Assumptions C15_large_data_cycles_never_grow_when_free_space_suffices.
+
+(* the same for 0 < n < 4096: mini sectors come from the mini free list or the retained container capacity; the FAT, the free stack and nsect are unchanged from repetition 2 on *)
+Theorem C15_small_data_cycles_are_stable : ltac:(let t := type of small_cycle_stable in exact t).
+Proof. exact small_cycle_stable. Qed.
+Check C15_small_data_cycles_are_stable.
+Print Assumptions C15_small_data_cycles_are_stable.
+
+(* through handles: set_len(n); set_len(0) repeated *)
+Theorem C15_handle_cycles_large : ltac:(let t := type of big_hcycle_stable in exact t).
+Proof. exact big_hcycle_stable. Qed.
+Check C15_handle_cycles_large.
+Print Assumptions C15_handle_cycles_large.
+
+(* the same below the cutoff *)
+Theorem C15_handle_cycles_small : ltac:(let t := type of small_hcycle_stable in exact t).
+Proof. exact small_hcycle_stable. Qed.
+Check C15_handle_cycles_small.
+Print Assumptions C15_handle_cycles_small.
+
+(* create_stream on an existing path (truncate) + set_len(n), repeated *)
+Theorem C15_overwrite_cycles : ltac:(let t := type of overwrite_api_stable in exact t).
+Proof. exact overwrite_api_stable. Qed.
+Check C15_overwrite_cycles.
+Print Assumptions C15_overwrite_cycles.
+
+(* a large stream grown to n1 and cut back to n0, repeated *)
+Theorem C15_grow_and_cut_back_cycles : ltac:(let t := type of grow_cut_iter in exact t).
+Proof. exact grow_cut_iter. Qed.
+Check C15_grow_and_cut_back_cycles.
+Print Assumptions C15_grow_and_cut_back_cycles.
+
+(* create_new_stream into a free directory slot of a file WITH data keeps the data invariant, allocates nothing, leaves every stream as it was *)
+Theorem C15_creation_in_files_with_data : ltac:(let t := type of create_new_stream_cohtree in exact t).
+Proof. exact create_new_stream_cohtree. Qed.
+Check C15_creation_in_files_with_data.
+Print Assumptions C15_creation_in_files_with_data.
+
+(* create_new_stream; set_len(n); drop; remove_stream - repeated: nsect unchanged after the first repetition (success of each create / remove is a premise, as AllOk is for the namespace cycles) *)
+Theorem C15_create_grow_remove_cycles_large : ltac:(let t := type of crcycle_stable in exact t).
+Proof. exact crcycle_stable. Qed.
+Check C15_create_grow_remove_cycles_large.
+Print Assumptions C15_create_grow_remove_cycles_large.
+
+(* the same below the cutoff *)
+Theorem C15_create_grow_remove_cycles_small : ltac:(let t := type of crcycle_small_stable in exact t).
+Proof. exact crcycle_small_stable. Qed.
+Check C15_create_grow_remove_cycles_small.
+Print Assumptions C15_create_grow_remove_cycles_small.
+
+(* non-vacuity: 5000 bytes: 15 -> 25, 25, 25 sectors *)
+Theorem C15_data_cycle_example_5000 : ltac:(let t := type of DataCycle.ExampleBig.cycle_5000_evaluated in exact t).
+Proof. exact DataCycle.ExampleBig.cycle_5000_evaluated. Qed.
+Check C15_data_cycle_example_5000.
+Print Assumptions C15_data_cycle_example_5000.
+
+(* first repetition reuses 1 and appends 9 sectors: 24, 24, 24 *)
+Theorem C15_data_cycle_example_mixed_first_repetition : ltac:(let t := type of DataCycle.ExampleBig.cycle_mixed_evaluated in exact t).
+Proof. exact DataCycle.ExampleBig.cycle_mixed_evaluated. Qed.
+Check C15_data_cycle_example_mixed_first_repetition.
+Print Assumptions C15_data_cycle_example_mixed_first_repetition.
+
+(* 4000 bytes in the mini stream: 23, 23, 23 *)
+Theorem C15_data_cycle_example_small : ltac:(let t := type of DataCycle.ExampleSmall.cycle_4000_evaluated in exact t).
+Proof. exact DataCycle.ExampleSmall.cycle_4000_evaluated. Qed.
+Check C15_data_cycle_example_small.
+Print Assumptions C15_data_cycle_example_small.
+
+(* create / grow / remove three times *)
+Theorem C15_data_cycle_example_create_remove : ltac:(let t := type of DataCycle.ExampleCycleRun.three_repetitions in exact t).
+Proof. exact DataCycle.ExampleCycleRun.three_repetitions. Qed.
+Check C15_data_cycle_example_create_remove.
+Print Assumptions C15_data_cycle_example_create_remove.
 
 (* non-vacuity: V3, a 3-entry cycle removed out of order: file length 3, then 4, 4, 4 sectors (the first repetition adds a directory sector) *)
 Theorem C15_cycle_example : ltac:(let t := type of Example.sizes in exact t).
